@@ -6,6 +6,7 @@ from copy import deepcopy
 from lxml import etree
 from xmldiff.diff_match_patch import diff_match_patch
 from xmldiff import utils
+from xmldiff.patch import Patcher
 
 
 DIFF_NS = "http://namespaces.shoobx.com/diff"
@@ -813,9 +814,23 @@ class XmlDiffFormatter(BaseFormatter):
     def format(self, diff, orig_tree):
         # This Formatter don't need the left tree, but the XMLFormatter
         # does, so the parameter is required.
+        # The paths of an action refer to the tree as it is when that action
+        # is applied, so we keep a copy of the tree in step with the actions.
+        tree = None
+        patcher = Patcher()
+        self._nsmap = {}
+        if orig_tree is not None:
+            tree = deepcopy(orig_tree)
+            if isinstance(tree, etree._ElementTree):
+                tree = tree.getroot()
+            self._nsmap = {k: v for k, v in tree.nsmap.items() if k is not None}
+            patcher._nsmap = self._nsmap
+
         actions = []
         for action in diff:
-            actions.extend(self.handle_action(action, orig_tree))
+            actions.extend(self.handle_action(action, tree))
+            if tree is not None:
+                patcher.handle_action(action, tree)
         res = "\n".join(self._format_action(action) for action in actions)
         return res
 
@@ -841,11 +856,11 @@ class XmlDiffFormatter(BaseFormatter):
         if action.position == 0:
             yield "insert-first", action.target, "\n<%s/>" % action.tag
             return
-        sibling = orig_tree.xpath(action.target)[0][action.position - 1]
+        sibling = orig_tree.xpath(action.target, namespaces=self._nsmap)[0][action.position - 1]
         yield "insert-after", utils.getpath(sibling), "\n<%s/>" % action.tag
 
     def _handle_RenameAttrib(self, action, orig_tree):
-        node = orig_tree.xpath(action.node)[0]
+        node = orig_tree.xpath(action.node, namespaces=self._nsmap)[0]
         value = node.attrib[action.oldname]
         value_text = "\n<@{0}>\n{1}\n</@{0}>".format(action.newname, value)
         yield "remove", f"{action.node}/@{action.oldname}"
@@ -855,8 +870,8 @@ class XmlDiffFormatter(BaseFormatter):
         if action.position == 0:
             yield "move-first", action.node, action.target
             return
-        node = orig_tree.xpath(action.node)[0]
-        target = orig_tree.xpath(action.target)[0]
+        node = orig_tree.xpath(action.node, namespaces=self._nsmap)[0]
+        target = orig_tree.xpath(action.target, namespaces=self._nsmap)[0]
         # Get the position of the previous sibling
         position = action.position - 1
         if node.getparent() is target:
